@@ -61,12 +61,19 @@ def histories(draw):
     for _ in range(draw(st.integers(0, 3))):  # usually a few jobs exist before reports and queries start
         ops.append(["submit", draw(st.lists(st.integers(0, 3), max_size=4))])
     for _ in range(n):
-        k = draw(st.sampled_from(["submit", "report", "report", "report", "shutdown", "progress", "progress", "result", "result"]))
+        k = draw(st.sampled_from(["submit", "report", "report", "report", "rreport", "rreport", "shutdown", "progress", "progress", "result", "result"]))
         if k == "submit":
             ops.append(["submit", draw(st.lists(st.integers(0, 3), max_size=4))])
         elif k == "report":
             ops.append(["report", draw(st.integers(0, 3)), draw(st.integers(0, 12)), draw(st.one_of(st.none(), statuses)),
                         draw(st.lists(st.tuples(ds, st.binary(min_size=0, max_size=6)).map(list), max_size=2))])
+        elif k == "rreport":
+            # the report is produced by the controller's real Reporter (progress computed from the scheduler state's counters, one
+            # result per report, or the shutdown notice), with a generated clock
+            total = draw(st.integers(1, 8))
+            what = draw(st.sampled_from(["progress", "progress", "result", "shutdown"]))
+            ops.append(["rreport", draw(st.integers(0, 3)), draw(st.integers(0, 12)), what, draw(st.integers(0, total)), total,
+                        draw(ds), draw(st.binary(min_size=0, max_size=6))])
         elif k == "shutdown":
             ops.append(["shutdown", draw(st.integers(0, 3)), draw(st.integers(0, 12))])
         elif k == "progress":
@@ -106,6 +113,46 @@ class _Uuid:
             return f"id{self.queue.pop(0)}"
         self.fresh += 1
         return f"fresh{self.fresh}"
+
+
+def _reporter_bytes(jid: str, ts: int, what: str, remaining: int, total: int, dsid, payload: bytes) -> bytes:
+    """What the real controller-side Reporter puts on the wire for this event (socket and clock are stand-ins)."""
+    sent: list[bytes] = []
+
+    class _Sock:
+        def connect(self, addr):
+            pass
+
+        def send(self, b):
+            sent.append(bytes(b))
+
+    class _Ctx:
+        def socket(self, kind):
+            return _Sock()
+
+    class _State:
+        pass
+
+    saved = (report.get_context, report.monotonic_ns)
+    report.get_context = lambda: _Ctx()
+    report.monotonic_ns = lambda: ts
+    try:
+        rp = report.Reporter(f"tcp://gw:ctrl,{jid}")
+        if what == "shutdown":
+            rp.shutdown()
+        elif what == "result":
+            rp.send_result(dsid, payload)
+        else:
+            st_ = _State()
+            st_.remaining, st_.total = remaining, total
+            rp.send_progress(st_)
+    except Exception as e:
+        raise Violation(f"Reporter raised {type(e).__name__}: {e} for {what}", "reporter-raises")
+    finally:
+        report.get_context, report.monotonic_ns = saved
+    if len(sent) != 1:
+        raise Violation(f"Reporter sent {len(sent)} messages for one {what}", "reporter-count")
+    return sent[0]
 
 
 def run_case(ops) -> tuple[bool, list[str]]:
@@ -173,10 +220,22 @@ def _run(ops, net, fz, uu, spawned):
             model[r.job_id] = {"cands": {-1: {"0.00"}}, "best": -1, "results": {}, "down": False}
             if any(x in [int(i[2:]) for i in ids[:-1] if i.startswith("id")] for x in op[1][:1]):
                 classes.add("uuid_collision")
-        elif op[0] in ("report", "shutdown"):
+        elif op[0] in ("report", "shutdown", "rreport"):
             if not ids:
                 continue
             jid = ids[op[1] % len(ids)]
+            raw_override = None
+            if op[0] == "rreport":
+                _k, _j, ts_, what, remaining, total, d_, b_ = op
+                raw_override = _reporter_bytes(jid, ts_, what, remaining, total, DatasetId(d_[0], d_[1]), b_)
+                classes.add("via_real_reporter")
+                if what == "shutdown":
+                    op = ["shutdown", op[1], ts_]
+                elif what == "result":
+                    op = ["report", op[1], ts_, None, [[d_, b_]]]
+                else:
+                    # the progress string the Reporter documents: percentage done with two decimals, without the percent sign
+                    op = ["report", op[1], ts_, f"{100.0 * (1.0 - remaining / total):.2f}", []]
             m = model[jid]
             if m["down"]:
                 classes.add("report_after_shutdown_not_delivered")
@@ -187,7 +246,7 @@ def _run(ops, net, fz, uu, spawned):
             else:
                 rep = report.ControllerReport(jid, op[3], ts, [(DatasetId(d[0], d[1]), b) for d, b in op[4]])
             try:
-                server.handle_controller(_CtrlSock(report.serialize(rep)), jobs)
+                server.handle_controller(_CtrlSock(raw_override if raw_override is not None else report.serialize(rep)), jobs)
             except Exception as e:
                 raise Violation(f"controller handler raised {type(e).__name__}: {e} on {rep!r}", "ctrl-raises")
             if op[0] == "shutdown":
